@@ -197,9 +197,29 @@ package sftp
 //@ func fileStatFromInfoOs
 //@   modifies *flags, *fileStat
 
+//@ ghost var swErr bool
+
+//@ func marshalPacket
+//@   trusted
+//@   results header, payload, err
+//@   ensures err == nil ==> len(header) >= 9
+//@   modifies nothing
+// (every packet type's encoder returns at least the length word, the type byte and an id / version word; proved per type
+//  under C06 for the 25 tabled types, assumed here for whatever implements encoding.BinaryMarshaler)
+
 //@ func sendPacket
+//@   property C04, C06
+//@   requires w != nil && m != nil
 //@   requires typeis(w, *conn) ==> locked(&w.(*conn).Mutex)
-//@   modifies bytes
+//@   update before call marshalPacket#1: ghost.swErr = false
+//@   update after call (io.Writer).Write#1: ghost.swErr = ghost.swErr || ret1 != nil
+//@   update after call (io.Writer).Write#2: ghost.swErr = ghost.swErr || ret1 != nil
+//@   assert before call (io.Writer).Write#1: arg1 == header && be32(header, 0) == uint32(len(header) + len(payload) - 4)
+//@   assert before call (io.Writer).Write#2: arg1 == payload
+//@   ensures ghost.swErr ==> result != nil
+//@   modifies bytes, ghost.swErr
+// (C06: the length prefix written is the number of bytes that follow it, header rest plus payload. C04: a failed write
+//  of either part is reported to the caller, who delivers it to the waiting request)
 // (a packet is written to a shared connection as up to two Write calls; they are contiguous on the wire only
 //  because every caller holds the connection's write lock across the call)
 
@@ -1713,7 +1733,11 @@ package sftp
 //@ ghost var gmin int64
 
 //@ func (*File).readAt
-//@   property C01, C13, C12, C03
+//@   update after make errCh#1: ghost.errOpen = true
+//@   loop 2 ghost errOpen
+//@   update after recv errCh#1: ghost.errOpen = ret1
+//@   ensures !ghost.errOpen || ghost.errOpen == old(ghost.errOpen)
+//@   property C01, C13, C12, C03, C04
 //@   results n, err
 //@   requires fileOK(f) && off >= 0 && off <= 0x3fffffffffffffff && len(b) <= 0x3fffffffffffffff
 //@   assume after make errCh#1: attr(ret, lo) == off && attr(ret, hi) == off + int64(len(b))
@@ -1770,7 +1794,11 @@ package sftp
 //@ ghost var wtEnd int64
 
 //@ func (*File).writeAtConcurrent
-//@   property C01, C13, C12, C03
+//@   update after make errCh#1: ghost.errOpen = true
+//@   loop 2 ghost errOpen
+//@   update after recv errCh#1: ghost.errOpen = ret1
+//@   ensures !ghost.errOpen || ghost.errOpen == old(ghost.errOpen)
+//@   property C01, C13, C12, C03, C04
 //@   results n, err
 //@   requires fileOK(f) && off >= 0 && off <= 0x3fffffffffffffff && len(b) <= 0x3fffffffffffffff
 //@   assume after make errCh#1: attr(ret, lo) == off && attr(ret, hi) == off + int64(len(b))
@@ -1897,7 +1925,11 @@ package sftp
 //@ ghost var dOff int64
 
 //@ func (*File).readFromWithConcurrency
-//@   property C01, C12, C13, C03
+//@   update after make errCh#1: ghost.errOpen = true
+//@   loop 2 ghost errOpen
+//@   update after recv errCh#1: ghost.errOpen = ret1
+//@   ensures !ghost.errOpen || ghost.errOpen == old(ghost.errOpen)
+//@   property C01, C12, C13, C03, C04
 //@   requires fileOK(f) && r != nil && f.offset >= 0 && f.offset <= 0x3fffffffffffffff
 //@   assume after make errCh#1: attr(ret, lo) == f.offset
 //@   assume after make workCh#1: attr(ret, lo) == f.offset
@@ -2179,6 +2211,7 @@ package sftp
 //@   modifies nothing
 
 //@ ghost var wfail bool
+//@ ghost var errOpen bool
 //@ ghost var reqFresh bool
 //@ ghost var freshReq *Request
 //@ ghost var kept int
